@@ -189,8 +189,9 @@ class Tup:
 
 
 class Adt:
-    def __init__(self, name, items):
+    def __init__(self, name, items, discr=None):
         self.name, self.items = name, list(items)
+        self.discr = discr   # symbolic discriminant (64-bit term) of a modelled Option result, else None
 
     def __repr__(self):
         return f"{self.name}{self.items}"
@@ -641,6 +642,8 @@ class Explorer:
         m = re.fullmatch(r"discriminant\((.*)\)", t)
         if m:
             v = self.read_place(st, frame, m.group(1))
+            if isinstance(v, Adt) and v.discr is not None:
+                return BV(v.discr, 64, True)
             if isinstance(v, Adt):
                 short = v.name.split("::")[-1]
                 known = {"None": 0, "Some": 1, "Ok": 0, "Err": 1}
@@ -888,6 +891,22 @@ class Explorer:
                     if key not in st.acc:
                         st.acc[key] = fresh_of_type(fr.func.local_types.get(dest.strip(), "u64"), "acc." + short, False)
                     rv = st.acc[key]
+                elif re.search(r"slice::<impl \[\w+\]>::get$", cname) and callee.endswith("::get::<usize>") and len(args) == 2 and isinstance(args[0], Ref) and isinstance(args[1], BV):
+                    # <[T]>::get(i): Some(&element) exactly when i < len (its contract); the element itself is arbitrary
+                    key = ("len", args[0].obj, args[0].path)
+                    if key not in st.acc:
+                        st.acc[key] = fresh_of_type("usize", "len", False)
+                    one, zero = z3.BitVecVal(1, 64), z3.BitVecVal(0, 64)
+                    rv = Adt("Option::Some?", [Ref(("elem", next(_fresh)), (), mutable=False)],
+                             discr=z3.If(z3.ULT(args[1].e, st.acc[key].e), one, zero))
+                elif re.search(r"as Iterator>::position$", cname):
+                    # Iterator::position over a slice iterator: None, or Some(index of an element) - the index is arbitrary here;
+                    # specs that need `index < length` take it from the recorded event (position's contract)
+                    d = z3.BitVec(f"position_found!{next(_fresh)}", 64)
+                    st.cond.append(z3.ULE(d, z3.BitVecVal(1, 64)))
+                    idx = BV(z3.BitVec(f"position_idx!{next(_fresh)}", 64), 64)
+                    rv = Adt("Option::Some?", [idx], discr=d)
+                    st.events.append(("position", cname, idx, None))
                 elif short == "current_time_millis":
                     rv = BV(z3.BitVec(f"now!{len(st.clock)}!{next(_fresh)}", 64), 64)
                     if st.clock:
